@@ -3,6 +3,7 @@ package linter
 import (
 	"fmt"
 	"strings"
+	"sync"
 
 	"github.com/pkg/errors"
 	"github.com/ysugimoto/falco/v2/ast"
@@ -27,6 +28,9 @@ type Linter struct {
 	conf       *config.LinterConfig
 
 	includeDepth int // number of file inclusions being resolved right now
+
+	// Error() is also called from the goroutines that run custom linter plugins concurrently
+	mu sync.Mutex
 }
 
 func New(c *config.LinterConfig, opts ...optionFunc) *Linter {
@@ -46,6 +50,9 @@ func (l *Linter) Lexers() map[string]*lexer.Lexer {
 }
 
 func (l *Linter) Error(err error) {
+	l.mu.Lock()
+	defer l.mu.Unlock()
+
 	if le, ok := err.(*LintError); ok {
 		if !l.ignore.IsEnable(le.Rule) {
 			l.Errors = append(l.Errors, le)
